@@ -24,7 +24,7 @@ THEOREMS = [
     "C16_quoted_option_refuted", "C16_option_comment_refuted", "C16_requirement_eq_refuted",
     "C16_tight_backslash_refuted", "C16_comment_in_continuation_refuted", "C16_pending_continuation_refuted",
     "C16_find_links_refuted", "C16_quoted_directive_refuted", "C16_indented_directive_refuted",
-    "C16_nested_directive_refuted", "C16_tab_directive_refuted", "C16_gen_obligations",
+    "C16_nested_directive_refuted", "C16_tab_directive_refuted", "C16_multi_option_line_refuted", "C16_gen_obligations",
     "C16_options_never_requirements", "C16_guard_never_decides", "C16_first_part_exists", "C16_newlines_do_not_matter", "C16_parse_requirements_skips",
     "C16_front_ends_agree_partial", "C16_front_ends_agree_example", "C16_index_options_honoured_partial",
 ]
@@ -148,7 +148,8 @@ def text_invalid(t: str) -> bool:
         return True
 
 
-def impl_cli(root: str, wheeldir: str, bi: Tuple[str, ...] = (), be: Tuple[str, ...] = ()) -> Tuple:
+def impl_cli(root: str, wheeldir: str, bi: Tuple[str, ...] = (), be: Tuple[str, ...] = (),
+             bf: Tuple[str, ...] = (), bno: bool = False) -> Tuple:
     M = _impl()["M"]
     old = M.build_repo
     M.build_repo = _fake_build_repo
@@ -157,6 +158,10 @@ def impl_cli(root: str, wheeldir: str, bi: Tuple[str, ...] = (), be: Tuple[str, 
         own += ["--index-url", u]
     for u in be:
         own += ["--extra-index-url", u]
+    for u in bf:
+        own += ["--find-links", u]
+    if bno:
+        own += ["--no-index"]
     try:
         with contextlib.redirect_stderr(io.StringIO()), contextlib.redirect_stdout(io.StringIO()):
             M.compile_main(own + ["--wheel-dir", wheeldir, root])
@@ -290,6 +295,7 @@ PLAIN_URLS = ["http://x/simple", "https://pypi.org/simple/", "http://h:8080/a/b"
 PLAIN_DIRS = ["./links", "../wheels", "./wheel_cache", "third_party/wheels-1.0", "/abs/links_x"]
 ODD_URLS = ["http://x/a#frag", '"http://x/simple"', "'./my-links'", "http://x//", "=x", "-weird"]
 OWN_URLS = ["http://cli/simple", "http://x/simple", "https://pypi.org/simple", "http://a", "http://y/s"]   # overlap with URLS on purpose
+OWN_LINKS = ["./links", "./cli_links", "../wheels", "./l"]   # overlap with URLS / the token soup on purpose
 SP = [" ", " ", " ", "  ", "\t", " \t "]
 IND = ["", "", "", "    ", "\t", "  "]
 COMMENTS = ["", " a comment", " via foo", "# more", " pinned é", " --hash=sha256:00 in a comment", " -r other.txt", " trailing \\"]
@@ -335,6 +341,9 @@ def g_opt(rng, conv: bool) -> Dict[str, Any]:
     odd = (not conv) and rng.random() < 0.6
     if odd:
         val = rng.choice(ODD_URLS)
+    elif rng.random() < 0.2:
+        q = rng.choice(['"', "'"])
+        val = q + val + q                         # pip (shlex) removes the quotes
     if kind in ("--no-index", "--pre"):
         first, rest = kind, []
     else:
@@ -358,7 +367,7 @@ def g_opt(rng, conv: bool) -> Dict[str, Any]:
             rest = rest + [(g2, k2 + "=" + v2)]
         else:
             rest = rest + [(g2, k2), (("s", rng.choice(SP)), v2)]
-    tl = g_tail(rng, (not conv) and rng.random() < 0.5)
+    tl = g_tail(rng, rng.random() < 0.3)
     if (not conv) and rng.random() < 0.15:
         first, rest = rng.choice(["--requirement=inc0.txt", "-c", "--index_url", "--help", "-rinc.txt", "--no-index=1", "--index", "--e"]), \
             ([(("s", " "), "x.txt")] if rng.random() < 0.5 else [])
@@ -543,10 +552,11 @@ def model_R(root_key: str, fed: Dict[str, List[str]], invalid: List[str]) -> str
 
 
 def model_F(root_key: str, fed: Dict[str, List[str]], invalid: List[str], root_split: List[str],
-            bi: Tuple[str, ...] = (), be: Tuple[str, ...] = ()) -> str:
+            bi: Tuple[str, ...] = (), be: Tuple[str, ...] = (), bf: Tuple[str, ...] = (), bno: bool = False) -> str:
     def sl(xs):
         return str(len(xs)) + "".join(" " + hx(t) for t in xs)
-    return "F {} {} {} {} {} {} {}".format(FUEL, hx(root_key), enc_files(fed), sl(invalid), sl(root_split), sl(bi), sl(be))
+    return "F {} {} {} {} {} {} {} {} {}".format(FUEL, hx(root_key), enc_files(fed), sl(invalid), sl(root_split), sl(bi), sl(be),
+                                                 sl(bf), int(bno))
 
 
 def canon_paths(x: Any, prefix: str) -> Any:
@@ -621,7 +631,7 @@ def run_file_cases(ctx: Ctx, cases: List[Dict[str, Any]]) -> None:
             c["impl"] = impl_read(c["root_key"])
             if c.get("fronts"):
                 rootp = c["root_key"]
-                c["impl_cli"] = impl_cli(rootp, str(case_dir / "_wd"), c.get("bi", ()), c.get("be", ()))
+                c["impl_cli"] = impl_cli(rootp, str(case_dir / "_wd"), c.get("bi", ()), c.get("be", ()), c.get("bf", ()), c.get("bno", False))
                 c["impl_bzl"] = impl_bazel(rootp)
                 try:
                     c["root_split"] = disk_path(case_dir, rootp).read_text(encoding="utf-8").splitlines()
@@ -636,7 +646,7 @@ def run_file_cases(ctx: Ctx, cases: List[Dict[str, Any]]) -> None:
         lines.append(model_R(c["root_key"], fed, inv))
         info.append(("R", idx))
         if c.get("fronts"):
-            lines.append(model_F(c["root_key"], fed, inv, c["root_split"], c.get("bi", ()), c.get("be", ())))
+            lines.append(model_F(c["root_key"], fed, inv, c["root_split"], c.get("bi", ()), c.get("be", ()), c.get("bf", ()), c.get("bno", False)))
             info.append(("F", idx))
     answers = run_model("C16", lines)
     if len(answers) != len(lines):
@@ -772,6 +782,8 @@ def _correspondence(ctx: Ctx) -> None:
         own = rng.random() < 0.35
         cases.append({"bi": tuple(rng.sample(OWN_URLS, rng.choice([1, 2]))) if own else (),
                       "be": tuple(rng.sample(OWN_URLS, rng.choice([0, 1]))) if own else (),
+                      "bf": tuple(rng.sample(OWN_LINKS, rng.choice([0, 1, 2]))) if own else (),
+                      "bno": own and rng.random() < 0.2,
                       "name": "tree", "dir": case_dir, "root_key": root_key, "files": fl, "meaning": meaning[ti],
                       "fronts": True, "pip": meaning[ti] is not None and meaning[ti]["conv"] and meaning[ti]["pip_strict"]})
     run_file_cases(ctx, cases)
@@ -883,6 +895,7 @@ def _correspondence(ctx: Ctx) -> None:
         own = rng.random() < 0.3
         acases.append({"bi": tuple(rng.sample(OWN_URLS, rng.choice([1, 2]))) if own else (),
                        "be": tuple(rng.sample(OWN_URLS, rng.choice([0, 1]))) if own else (),
+                       "bf": tuple(rng.sample(OWN_LINKS, rng.choice([0, 1]))) if own else (),
                        "name": "argparse", "dir": tmp / ("a%d" % ai), "root_key": "reqs.in", "files": {"reqs.in": [" ".join(toks)]}, "fronts": True})
     run_file_cases(ctx, acases)
     # (6) the property statement itself on the real code (no model involved): conventional trees whose
@@ -967,8 +980,8 @@ def eval_witness(ctx: Ctx, w: Dict[str, Any], tag: str) -> Dict[str, Any]:
     return canon_paths(obs, str(case_dir))
 
 
-def witness_reproduces(obs: Dict[str, Any], w: Dict[str, Any]) -> bool:
-    exp = w["expect"]
+def witness_reproduces(obs: Dict[str, Any], w: Dict[str, Any], key: str = "expect") -> bool:
+    exp = w[key]
     for k, v in exp.items():
         part, field = k.split(".")
         got = obs[part]
@@ -985,14 +998,16 @@ def run_corpus(ctx: Ctx) -> None:
         ctx.count("corpus")
         ctx.case(key=("corpus", f.name), nontrivial=True)
         if not witness_reproduces(obs, w):
-            ctx.mismatch("refuted-witness-no-longer-reproduces:" + f.stem, w["files"], obs, w["expect"])
+            ctx.mismatch(("repaired-behaviour-lost:" if "defect" in w else "refuted-witness-no-longer-reproduces:") + f.stem,
+                         w["files"], obs, w["expect"])
 
 
 def replay_known(ctx: Ctx, entry: Dict[str, Any]) -> Optional[bool]:
     _impl()
     w = json.loads((common.VERIF / entry["replay"]).read_text())
     obs = eval_witness(ctx, w, "known_" + entry["id"])
-    return witness_reproduces(obs, w)
+    # a repaired finding keeps its old observations under `defect`; it "still reproduces" iff those come back
+    return witness_reproduces(obs, w, "defect" if "defect" in w else "expect")
 
 
 # ------------------------------------------------------------------------------------------
@@ -1033,7 +1048,8 @@ def py_meaning(items: List[Dict[str, Any]]) -> Tuple[List[List[str]], List[str]]
         if i["k"] == "Q":
             reqs.append([i["first"]] + [w for _, w in i["toks"]])
         elif i["k"] == "O":
-            opts += [i["first"]] + [w for _, w in i["rest"]]
+            import shlex
+            opts += [shlex.split(w)[0] if shlex.split(w) else "" for w in [i["first"]] + [w for _, w in i["rest"]]]   # pip: quotes removed
         elif i["k"] == "N" and i["sub"] is not None:
             r, o = py_meaning(i["sub"])
             reqs += r
@@ -1068,10 +1084,10 @@ def oracle_tree(ctx: Ctx, items: List[Dict[str, Any]], tag: str) -> Optional[str
         return f"pip takes the options {po['decl']}, the tool's collected option tokens declare {got_decl}"
     # front-ends: only files whose option lines are all plain long-form index directives at column 0
     plain = all(i["k"] != "N" or not py_meaning(i["sub"] or [])[1] for i in items) and \
-        all(i["k"] != "O" or (i["ind"] == "" and i["first"].split("=")[0] in ("--index-url", "--extra-index-url", "--find-links")
+        all(i["k"] != "O" or (i["first"].split("=")[0] in ("--index-url", "--extra-index-url", "--find-links")
                               and len(i["rest"]) == (0 if "=" in i["first"] else 1)       # one directive per line
-                              and all(g[0] == "s" and set(g[1]) == {" "} for g, _ in i["rest"])
-                              and i["tail"][0] == "0" and set(i["tail"][1]) <= {" "}) for i in items)
+                              and all(g[0] == "s" for g, _ in i["rest"])                  # the Bazel scanner does not join lines
+                              ) for i in items)
     if plain and any(i["k"] == "O" for i in items):
         c, b = impl_cli(root, str(case_dir / "_wd")), impl_bazel(root)
         if c[0] != "OK" or b[0] != "OK":
@@ -1091,8 +1107,8 @@ def oracle_tree(ctx: Ctx, items: List[Dict[str, Any]], tag: str) -> Optional[str
     return None
 
 
-# known finding C16-cli-ignores-find-links: until it is repaired the command line's find-links are not compared
-CLI_IGNORES_FIND_LINKS = True
+# C16-cli-ignores-find-links is repaired: the command line's find-links are compared with the declared ones
+CLI_IGNORES_FIND_LINKS = False
 
 
 def _search_items(rng, k: int) -> List[Dict[str, Any]]:
@@ -1112,10 +1128,15 @@ def _plain_directives(rng, items: List[Dict[str, Any]]) -> None:
         if i["k"] == "O":
             nm = rng.choice(["--index-url", "--extra-index-url", "--extra-index-url", "--find-links"])
             v = rng.choice(PLAIN_DIRS if nm == "--find-links" else PLAIN_URLS)
+            if rng.random() < 0.25:
+                q = rng.choice(['"', "'"])
+                v = q + v + q
+            ind = rng.choice(["", "", "", "  ", "\t"])
+            tl = g_tail(rng, rng.random() < 0.3)
             if rng.random() < 0.5:
-                i.update(ind="", first=nm + "=" + v, rest=[], tail=("0", rng.choice(["", " "])))
+                i.update(ind=ind, first=nm + "=" + v, rest=[], tail=tl)
             else:
-                i.update(ind="", first=nm, rest=[(("s", rng.choice([" ", "  "])), v)], tail=("0", rng.choice(["", "  "])))
+                i.update(ind=ind, first=nm, rest=[(("s", rng.choice([" ", "  ", "\t", " \t"])), v)], tail=tl)
 
 
 def search(ctx: Ctx) -> Optional[Dict[str, Any]]:
@@ -1133,7 +1154,7 @@ def search(ctx: Ctx) -> Optional[Dict[str, Any]]:
             except Exception as ex:  # noqa
                 why = None
             if why:
-                return {"input": items, "why": why}
+                return {"input": items, "why": why, "lines": py_render(items)}
     return None
 
 
